@@ -70,8 +70,6 @@ fn cpu_in(e: &mut Emu, port: u16) -> Result<u8, Fail> {
     st.sp = 0x9000;
     st.bc = port;
     st.to_impl(e.verif_cpu());
-    // keep the beam in the top border / retrace so that unclaimed ports would read 0xFF
-    e.verif_set_frame_clocks(100);
     step_public(e).map_err(|x| Fail::new("C17.step", "", x))?;
     Ok((cpu_state(e).af >> 8) as u8)
 }
